@@ -19,7 +19,38 @@ THEOREMS = [
     "HedVerif.C12.key_lexicographic",
     "HedVerif.C12.export_json",
     "HedVerif.C12.sort_list_spec",
+    # context stack (Props/C12Stack.lean)
+    "HedVerif.C12.push_pop",
+    "HedVerif.C12.push_keeps_value",
+    "HedVerif.C12.push_none_default",
+    "HedVerif.C12.format_carries_stack",
+    "HedVerif.C12.format_drops_warning",
+    "HedVerif.C12.formatted_issues_fixed",
+    "HedVerif.C12.format_in_history",
+    # printable grouping
+    "HedVerif.C12.print_insert",
+    "HedVerif.C12.print_perm",
+    "HedVerif.C12.print_lines_issues",
+    "HedVerif.C12.print_same_path",
+    "HedVerif.C12.print_groups_stable",
+    "HedVerif.C12.printed_annotated",
 ]
+# composition with the string-validator model (C01) and the closed file / sidecar models
+EXTRA_AUDIT = ("HedVerif.Props.C12Closed", [
+    "HedVerif.C12.validateW_true",
+    "HedVerif.C12.gates_see_errors_only",
+    "HedVerif.C12.validate_filter",
+    "HedVerif.C12.offsets_closed",
+    "HedVerif.C12.offsets_closed_span_partial",
+    "HedVerif.C12.offsets_def_value_counterexample",
+    "HedVerif.C12.file_validateW_true",
+    "HedVerif.C12.file_filter",
+    "HedVerif.C12.file_filter_closed",
+    "HedVerif.C12.file_gate_counterexample",
+    "HedVerif.C12.sidecar_validateW_true",
+    "HedVerif.C12.sidecar_filter_partial",
+    "HedVerif.C12.sidecar_filter",
+])
 BUDGET = {"quick": 900, "thorough": 3600}
 
 
@@ -142,6 +173,480 @@ def gen_strings(ctx, n):
     return out
 
 
+# ------------------------------------------------------------------------------- context stack (histories)
+
+ROW, COLUMN, FILE, SCOL, SKEY, LINE, TITLE, HEDSTR = ("ec_row", "ec_column", "ec_filename", "ec_sidecarColumnName",
+                                                      "ec_sidecarKeyName", "ec_line", "ec_title", "ec_HedString")
+STACK_KEYS = [ROW, ROW, COLUMN, COLUMN, FILE, SCOL, SKEY, LINE, TITLE]
+STACK_VALS = [None, None, 0, 0, 1, 7, "", "", "a", "0", "HED", "col b"]
+
+
+def tv(v):
+    """type-exact view of a context value: the integer 0, "0" and "" are three different things"""
+    if isinstance(v, bool):
+        return ["b", v]
+    if isinstance(v, int):
+        return ["i", v]
+    if isinstance(v, str):
+        return ["s", v]
+    return ["o", v.get_original_hed_string() if hasattr(v, "get_original_hed_string") else str(v)]
+
+
+def tv_wire(v):
+    """the same view of a value that came back from the driver"""
+    if isinstance(v, dict):
+        return ["o", v["ref"]]
+    return tv(v)
+
+
+def wire(v):
+    return v if v is None or isinstance(v, (int, str)) else {"ref": tv(v)[1]}
+
+
+def gen_history(rng, n=None):
+    ops, depth = [], 0
+    for k in range(n or rng.randint(3, 14)):
+        x = rng.random()
+        if x < 0.42:
+            ops.append({"t": "push", "k": rng.choice(STACK_KEYS), "v": rng.choice(STACK_VALS)})
+            depth += 1
+        elif x < 0.62:
+            if depth == 0 and rng.random() < 0.8:
+                continue
+            ops.append({"t": "pop"})
+            depth = max(depth - 1, 0)
+        elif x < 0.66:
+            ops.append({"t": "reset"})
+            depth = 0
+        else:
+            ops.append({"t": "format", "severity": rng.choice([1, 1, 10]), "idx": len(ops), "ctx": []})
+    if not any(o["t"] == "format" for o in ops):
+        ops.append({"t": "format", "severity": 1, "idx": len(ops), "ctx": []})
+    return ops
+
+
+def ec_items(d):
+    return [[k, tv(v)] for k, v in d.items() if k.startswith("ec_")]
+
+
+def run_history_real(ops, w):
+    """the real ErrorHandler: (raised, [(id, issue dict, snapshot of its ec_ items when formatted)], final stack)"""
+    from hed.errors.error_reporter import ErrorHandler
+    from hed.errors.error_types import ValidationErrors
+    eh = ErrorHandler(check_for_warnings=w)
+    out = []
+    for o in ops:
+        if o["t"] == "push":
+            eh.push_error_context(o["k"], o["v"])
+        elif o["t"] == "pop":
+            try:
+                eh.pop_error_context()
+            except IndexError:
+                return True, out, None
+        elif o["t"] == "reset":
+            eh.reset_error_context()
+        else:
+            for i in eh.format_error_with_context(ValidationErrors.ONSETS_UNORDERED, severity=o["severity"]):
+                out.append((o["idx"], i, ec_items(i)))
+    return False, out, [[k, tv(v)] for k, v in eh.error_context]
+
+
+def expect_history(ops, w):
+    """the property, written down independently: an issue carries what is on the stack when it is formatted — per context
+    type the innermost value, at the place of the outermost; `None` stands for row 0 / the empty string"""
+    stack, out = [], []
+    for o in ops:
+        if o["t"] == "push":
+            v = o["v"]
+            stack.append((o["k"], (0 if o["k"] == ROW else "") if v is None else v))
+        elif o["t"] == "pop":
+            if not stack:
+                return True, out
+            stack.pop()
+        elif o["t"] == "reset":
+            stack = []
+        elif w or o["severity"] < 10:
+            d = {}
+            for k, v in stack:
+                d[k] = v
+            out.append((o["idx"], [[k, tv(v)] for k, v in d.items()]))
+    return False, out
+
+
+def check_history(ctx, ops, w, model):
+    case = {"entry": "history", "w": w, "ops": ops}
+    raised, out, stack = run_history_real(ops, w)
+    eraised, eout = expect_history(ops, w)
+    ctx.case(("hist", w, json.dumps(ops)), nontrivial=any(o["t"] == "push" for o in ops))
+    ctx.count("history-cases")
+    for _, i, snap in out:
+        if ec_items(i) != snap:
+            ctx.violation("context-of-a-formatted-issue-changed-later", case, {"then": snap, "now": ec_items(i)})
+    if raised != eraised or [(k, s) for k, _, s in out] != eout:
+        ctx.violation("issue-context-is-not-the-stack-at-format-time(type-exact)", case,
+                      {"impl": [(k, s) for k, _, s in out], "expected": eout, "raised": [raised, eraised]})
+    if model is not None:
+        mine = None if model["raised"] else [(i["id"], [[k, tv_wire(v)] for k, v in i["ctx"] if k.startswith("ec_")])
+                                             for i in model["out"]]
+        impl = None if raised else [(k, s) for k, _, s in out]
+        mstack = None if model["raised"] else [[k, tv_wire(v)] for k, v in model["stack"]]
+        if mine != impl or mstack != stack:
+            ctx.disagree("Issue.run = ErrorHandler push/pop/reset/format history", case, {"out": mine, "stack": mstack},
+                         {"out": impl, "stack": stack})
+
+
+def run_stack(ctx):
+    hist = [[{"t": "push", "k": COLUMN, "v": 0}, {"t": "format", "severity": 1, "idx": 1, "ctx": []}],
+            [{"t": "push", "k": ROW, "v": ""}, {"t": "push", "k": ROW, "v": None}, {"t": "push", "k": FILE, "v": None},
+             {"t": "format", "severity": 10, "idx": 3, "ctx": []}, {"t": "pop"}, {"t": "format", "severity": 1, "idx": 5, "ctx": []}],
+            [{"t": "pop"}]]
+    hist += [gen_history(ctx.rng) for _ in range(600 if ctx.quick() else 12000)]
+    reqs, meta = [], []
+    for ops in hist:
+        for w in (True, False):
+            reqs.append({"op": "c12.ctx", "w": w, "ops": [dict(o, v=wire(o["v"])) if o["t"] == "push" else o for o in ops]})
+            meta.append((ops, w))
+    for (ops, w), a in zip(meta, ctx.model.batch(reqs)):
+        if "bad-op" in a:
+            raise RuntimeError("driver: " + str(a["bad-op"]))
+        check_history(ctx, ops, w, a)
+    ctx.check_time()
+
+
+# ------------------------------------------------------------------------------- printable output
+
+def gen_print_case(rng, hs_pool):
+    pools = {FILE: ["f1.tsv", "f2.tsv"], ROW: [1, 2, 10], COLUMN: ["a", "b", 0], SCOL: ["cat", "val"], SKEY: ["k1", "k2"],
+             LINE: ["3"], TITLE: ["T"], HEDSTR: hs_pool}
+    canon = [TITLE, FILE, SCOL, SKEY, ROW, COLUMN, HEDSTR]
+    issues = []
+    for k in range(rng.randint(1, 9)):
+        d = {"code": rng.choice(["TAG_INVALID", "X", "STYLE_WARNING"]), "message": f"msg<{k}>", "severity": rng.choice([1, 1, 10])}
+        keys = [x for x in canon if rng.random() < 0.45]
+        if rng.random() < 0.3:
+            rng.shuffle(keys)
+        if rng.random() < 0.3:
+            d["source_tag"] = "t"
+        for x in keys:
+            d[x] = rng.choice(pools[x])
+        if rng.random() < 0.3:
+            d["char_index"] = 3
+        issues.append(d)
+    return {"issues": issues, "skip": rng.random() < 0.6, "severity": rng.choice([None, None, 1, 10])}
+
+
+def own_path(d, skip):
+    return [(k, tv(v)[1] if tv(v)[0] == "o" else str(v)) for k, v in d.items() if k.startswith("ec_") and not (skip and k == FILE)]
+
+
+def check_print(ctx, pc, model):
+    import re
+    from hed.errors.error_reporter import get_printable_issue_string
+    issues, skip, sev = pc["issues"], pc["skip"], pc["severity"]
+    case = {"entry": "print", "skip": skip, "severity": sev,
+            "issues": [{k: (v if isinstance(v, (int, str)) else {"ref": tv(v)[1]}) for k, v in d.items()} for d in issues]}
+    text = get_printable_issue_string(issues, severity=sev, skip_filename=skip, add_link=False)
+    lines, pending = [], None
+    for ln in text.split("\n"):
+        if not ln.strip():
+            pending = len(ln)       # the file-name header starts with a line break: its tabs stand on the line before
+            continue
+        body = ln.lstrip("\t")
+        m = re.search(r"msg<(\d+)>$", body)
+        lv = pending if (pending is not None and not m and body.startswith("Errors in file '")) else len(ln) - len(body)
+        pending = None
+        lines.append([lv, "i", int(m.group(1))] if m else [lv, "c", body])
+    ctx.case(("print", json.dumps(case, sort_keys=True)), nontrivial=len(issues) >= 2)
+    ctx.count("print-cases")
+    kept = [k for k, d in enumerate(issues) if sev is None or d["severity"] <= sev]
+    printed = [l[2] for l in lines if l[1] == "i"]
+    if sorted(printed) != kept:
+        ctx.violation("issue-not-printed-exactly-once", case, {"printed": printed, "expected": kept})
+    groups = {}
+    for k in kept:
+        groups.setdefault(json.dumps(own_path(issues[k], skip)), []).append(k)
+    for g in groups.values():
+        if [k for k in printed if k in g] != g:
+            ctx.violation("issues-of-one-context-not-printed-in-list-order", case, {"printed": printed, "group": g})
+    heads = []
+    for lv, kind, x in lines:
+        if kind == "c":
+            heads = heads[:lv] + [x]
+        else:
+            path = own_path(issues[x], skip)
+            if lv != len(path) or len(heads) < lv or any(path[j][1] not in heads[j] for j in range(lv)):
+                ctx.violation("issue-not-printed-under-its-own-contexts", case, {"id": x, "level": lv, "path": path, "heads": heads[:lv]})
+    if model is not None:
+        ml = model["lines"]
+        same = len(ml) == len(lines) and all(a[0] == b[0] and a[1] == b[1] and (a[2] == b[2] if a[1] == "i" else a[3] in b[2])
+                                             for a, b in zip(ml, lines))
+        if not same:
+            ctx.disagree("Issue.printLines = get_printable_issue_string (levels, headers, issue order)", case, ml, lines)
+
+
+def print_request(pc):
+    return {"op": "c12.print", "skipFile": pc["skip"], "severity": pc["severity"],
+            "issues": [{"id": k, "severity": d["severity"], "ctx": [[key, wire(v)] for key, v in d.items()
+                                                                     if key not in ("code", "message", "severity")]}
+                       for k, d in enumerate(pc["issues"])]}
+
+
+def run_print(ctx, schema):
+    from hed import HedString
+    pool = [HedString("Red, Blue", schema), HedString("(Green)", schema)]
+    cases = [gen_print_case(ctx.rng, pool) for _ in range(500 if ctx.quick() else 10000)]
+    for pc, a in zip(cases, ctx.model.batch([print_request(pc) for pc in cases])):
+        if "bad-op" in a:
+            raise RuntimeError("driver: " + str(a["bad-op"]))
+        check_print(ctx, pc, a)
+    ctx.check_time()
+
+
+# ------------------------------------------------------------------------------- composition with the C01 / C07 / C08 models
+
+ROW_GATE = [  # a row whose LAST looked-at cell reports only a warning and whose row-level checks report an error
+    {"mode": "sheet", "onsets": None, "cols": [["Item/Xyz, Red, Red", "Red"]], "sidecar": None},
+    {"mode": "sheet", "onsets": None, "cols": [["Red", "Blue"], ["Item/Xyz, Red", "Item/Abc, (Onset, Red)"]], "sidecar": None},
+    {"mode": "tabular", "onsets": None, "cols": [["Item/Xyz, (Blue, Blue)", "Green"]], "sidecar": None},
+]
+
+
+def loc_view(i):
+    return [i["code"], int(i["severity"]),
+            [i["char_index"], i["char_index_end"]] if "char_index_end" in i else None]
+
+
+def string_obs(su, text, ph, w):
+    from hed import HedString
+    from hed.errors.error_reporter import ErrorHandler
+    from hed.errors.error_types import ErrorContext
+    hs = HedString(text, su.real.schema, su.real.dd)
+    eh = ErrorHandler(check_for_warnings=w)
+    eh.push_error_context(ErrorContext.HED_STRING, hs)
+    try:
+        return [loc_view(i) for i in hs.validate(allow_placeholders=ph, error_handler=eh)]
+    except IndexError:
+        return None
+
+
+def check_closed_string(ctx, su, text, ph, m):
+    case = {"entry": "closed-string", "text": text, "ph": ph}
+    ctx.count("closed-string:cases")
+    if "unmodelled" in m or "raises" in m:
+        ctx.count("closed-string:skipped-" + ("unmodelled" if "unmodelled" in m else "raises"))
+        return
+    on, off = string_obs(su, text, ph, True), string_obs(su, text, ph, False)
+    if on is None or off is None:
+        ctx.count("closed-string:impl-raised")
+        return
+    ctx.case(("cs", text, ph), nontrivial=any(x[2] for x in on))
+    if off != [x for x in on if x[1] == 1]:
+        ctx.violation("errors-only-not-the-error-subset", case, {"off": off, "on": on})
+    for name, impl in (("on", on), ("off", off)):
+        mine = [[c, s, ch] for c, s, sp, ch in m[name]]
+        if sorted(mine, key=json.dumps) != sorted(impl, key=json.dumps):
+            ctx.disagree(f"Flow.located (warnings {name}) = HedString.validate under a handler: code, severity, char offsets",
+                         case, [x for x in mine if x not in impl][:6], [x for x in impl if x not in mine][:6])
+    if any(x[1] == 10 for x in on) and any(x[1] == 1 for x in on):
+        ctx.count("closed-string:warning-and-error")
+
+
+def table_obs(su, spec, w):
+    from hed.errors.error_reporter import ErrorHandler
+    data = su.real.build(spec)
+    try:
+        issues = data.validate(su.real.schema, extra_def_dicts=su.real.dd, error_handler=ErrorHandler(check_for_warnings=w))
+    except Exception as e:
+        return {"exc": type(e).__name__}
+    return {"issues": [[i["code"] + ":" + str(i.get("_kind")), i["severity"], i.get("ec_row"),
+                        None if i.get("ec_column") is None else str(i.get("ec_column"))] for i in issues]}
+
+
+def check_closed_table(ctx, su, spec, rq, m):
+    from harness.props import c07
+    case = {"entry": "closed-table", "spec": spec}
+    ctx.count("closed-table:tables")
+    if "unmodelled" in m:
+        ctx.count("closed-table:skipped-unmodelled")
+        return
+    obs = {True: table_obs(su, spec, True), False: table_obs(su, spec, False)}
+    ctx.case(("ct", json.dumps(spec, sort_keys=True)), nontrivial=bool(obs[True].get("issues")))
+    if "exc" in obs[True] or "exc" in obs[False]:
+        if obs[True].get("exc") != obs[False].get("exc"):
+            ctx.violation("errors-only-raises-differently", case, {"on": obs[True].get("exc"), "off": obs[False].get("exc")})
+    else:
+        # the property: same list minus the warnings, in the same (sorted) order
+        if obs[False]["issues"] != [i for i in obs[True]["issues"] if i[1] == 1]:
+            ctx.violation("errors-only-not-the-error-subset", case,
+                          {"off": obs[False]["issues"][:8], "on-errors": [i for i in obs[True]["issues"] if i[1] == 1][:8]})
+        if any(i[1] == 10 for i in obs[True]["issues"]):
+            ctx.count("closed-table:with-warning")
+    for w, name in ((True, "on"), (False, "off")):
+        mm, oo = m[name], obs[w]
+        if "exc" in mm or "exc" in oo:
+            if mm.get("exc") != oo.get("exc"):
+                ctx.disagree(f"Flow.Tab.validateClosedW (warnings {name}) = validate (exception)", case, mm.get("exc", "issues"),
+                             oo.get("exc", "issues"))
+            continue
+        mine = c07.canon_obs([i[:4] for i in mm["issues"]], [], rq["rowAdj"], rq["hasOnset"])
+        impl = c07.canon_obs(oo["issues"], [], rq["rowAdj"], rq["hasOnset"])
+        if any(i[4] == "row" for i in mm["issues"]):
+            ctx.count(f"closed-table:{name}-with-row-level-issue")
+        if mine != impl:
+            ctx.disagree(f"Flow.Tab.validateClosedW (warnings {name}) = validate (kind, severity, ec_row, ec_column list)", case,
+                         [x for x in mine if x not in impl][:6], [x for x in impl if x not in mine][:6])
+
+
+def sidecar_obs(doc, schema, dd, w):
+    import io
+    from hed import Sidecar
+    from hed.errors.error_reporter import ErrorHandler
+    from harness.props import c08
+    try:
+        issues = Sidecar(io.StringIO(json.dumps(doc))).validate(schema, extra_def_dicts=dd,
+                                                                error_handler=ErrorHandler(check_for_warnings=w))
+    except Exception as e:
+        return {"raise": type(e).__name__}, None
+    return {"ok": c08.strip_kind([c08.canon_issue(i) for i in issues])}, [c08.canon_issue(i) for i in issues]
+
+
+def check_closed_sidecar(ctx, su, doc, m):
+    from harness.props import c08
+    case = {"entry": "closed-sidecar", "doc": doc}
+    ctx.count("closed-sidecar:docs")
+    if "unmodelled" in m:
+        ctx.count("closed-sidecar:skipped-unmodelled")
+        return
+    obs = {w: sidecar_obs(doc, su.real.schema, su.real.dd, w) for w in (True, False)}
+    ctx.case(("sc", json.dumps(doc)), nontrivial=bool(doc))
+    if obs[True][1] is not None and obs[False][1] is not None:
+        if obs[False][1] != [i for i in obs[True][1] if i[2] == 1]:
+            ctx.violation("errors-only-not-the-error-subset", case, {"off": obs[False][1][:8], "on": obs[True][1][:8]})
+        if any(i[2] == 10 for i in obs[True][1]):
+            ctx.count("closed-sidecar:with-warning")
+    elif obs[True][0].get("raise") != obs[False][0].get("raise"):
+        ctx.violation("errors-only-raises-differently", case, {"on": obs[True][0], "off": obs[False][0]})
+    for w, name in ((True, "on"), (False, "off")):
+        mm, oo = m[name], obs[w][0]
+        if "unmodelled" in mm:
+            continue
+        if "raise" in mm or "raise" in oo:
+            if mm.get("raise") != oo.get("raise"):
+                ctx.disagree(f"Flow.Sc.validateClosedW (warnings {name}) = Sidecar.validate (exception)", case,
+                             mm.get("raise", "issues"), oo.get("raise", "issues"))
+            continue
+        mine = sorted(mm["ok"], key=c08.obs_key)
+        if mine != oo["ok"]:
+            ctx.disagree(f"Flow.Sc.validateClosedW (warnings {name}) = Sidecar.validate (kind, code, severity, column, key list)",
+                         case, [x for x in mine if x not in oo["ok"]][:6], [x for x in oo["ok"] if x not in mine][:6])
+
+
+def closed_setup(ctx):
+    from harness.props import closed_c07, c08
+    su = closed_c07.Setup(ctx)
+    c08.install_recorders()
+    c08.tables()
+    return su
+
+
+def closed_strings(ctx, su, n):
+    g, rng = su.gen, ctx.rng
+    fixed = ["Item/Xyz, Red, Red", "Item/Xyz$", "Def/C/x$1", "Def/C/3", "red, (Item/Abc, Blue)", "Item/Xy, Greenish",
+             "Label/a$b, Item/Q1", "(Item/Xyz, (Red, Red))", "Red/", "Item/Xyz, (Red", "Item/Abc, Def/Zed"]
+    out = [(t, False) for t in fixed]
+    for t in gen_strings(ctx, n // 3):
+        if "Delay" not in t and all(ord(c) < 128 for c in t):
+            out.append((t, rng.random() < 0.3))
+    for _ in range(n - n // 3):
+        ph = rng.random() < 0.25
+        tree = g.conforming(ph)
+        x = rng.random()
+        try:
+            from harness.props import c01
+            t = g.inject(rng.choice(list(c01.SPEC)), tree, ph) if x < 0.45 else g.render(tree)
+        except Exception:
+            t = None
+        if t and len(t) <= 120:
+            if rng.random() < 0.5:       # an extension (warning) next to whatever the text holds
+                t = "Item/Ext" + str(rng.randint(1, 99)) + ", " + t
+            out.append((t, ph))
+    return out
+
+
+def run_closed(ctx):
+    from harness.props import closed_c07, closed_c08, c08
+    su = closed_setup(ctx)
+    quick = ctx.quick()
+    # strings
+    cases = closed_strings(ctx, su, 900 if quick else 9000)
+    for lo in range(0, len(cases), 2000):
+        part = cases[lo:lo + 2000]
+        a = ctx.model.batch([dict(su.env([t for t, _ in part]), op="c12.string", cases=[{"text": t, "ph": ph} for t, ph in part])])[0]
+        if "bad-op" in a:
+            raise RuntimeError("driver: " + str(a["bad-op"]))
+        for (t, ph), m in zip(part, a["answers"]):
+            check_closed_string(ctx, su, t, ph, m)
+        ctx.check_time()
+    # tables
+    specs = list(ROW_GATE) + list(closed_c07.WITNESS)
+    for _ in range(170 if quick else 2500):
+        sp = closed_c07.gen_table(ctx.rng, su.gen, su.variant)
+        if ctx.rng.random() < 0.35:      # put an extension warning into the last HED-bearing column of some rows
+            col = sp["cols"][0] if sp["mode"] == "sidecar" else sp["cols"][-1]
+            for r in range(len(col)):
+                if col[r] not in ("", "n/a") and ctx.rng.random() < 0.5 and len(col[r]) < 80:
+                    col[r] = col[r] + ", Item/Ext" + str(ctx.rng.randint(1, 99))
+        specs.append(sp)
+    reqs = [su.real.request(sp, su.variant) for sp in specs]
+    for lo in range(0, len(reqs), 400):
+        texts = [x for rq in reqs[lo:lo + 400] for r in rq["rows"] for x in r["cells"]]
+        a = ctx.model.batch([dict(su.env(texts), op="c12.file", tables=reqs[lo:lo + 400])])[0]
+        if "bad-op" in a:
+            raise RuntimeError("driver: " + str(a["bad-op"]))
+        for sp, rq, m in zip(specs[lo:lo + 400], reqs[lo:lo + 400], a["answers"]):
+            check_closed_table(ctx, su, sp, rq, m)
+        ctx.check_time()
+    # sidecars
+    docs = list(closed_c08.WITNESS) + [{"a": {"HED": {"go": "Item/Xyz, Red, Red", "stop": "Item/Abc"}}, "b": {"HED": "Label/#, Item/Q"}}]
+    docs += [closed_c08.gen_doc(ctx.rng, su.gen) for _ in range(130 if quick else 2500)]
+    for d in docs[4:]:
+        if ctx.rng.random() < 0.3:
+            for col in d.values():
+                h = col.get("HED") if isinstance(col, dict) else None
+                if isinstance(h, dict):
+                    for k in h:
+                        if ctx.rng.random() < 0.5:
+                            h[k] = h[k] + ", Item/Ext" + str(ctx.rng.randint(1, 99))
+    for lo in range(0, len(docs), 500):
+        part = docs[lo:lo + 500]
+        chars = sorted({c for d in part for c in json.dumps(d, ensure_ascii=False) if ord(c) > 127})
+        env = dict(su.v.payload(chars), **__import__("harness.props.c01", fromlist=["x"]).detect_variant(), ns="")
+        a = ctx.model.batch([dict(env, op="c12.sidecar", docs=[{"doc": c08.enc(d), "fixed": True} for d in part])])[0]
+        if "bad-op" in a:
+            raise RuntimeError("driver: " + str(a["bad-op"]))
+        for d, m in zip(part, a["answers"]):
+            check_closed_sidecar(ctx, su, d, m)
+        ctx.check_time()
+    su.real.cleanup()
+
+
+SIDECAR_CAT = {"HED": {"a": "Red, Zork", "b": "(Blue, Blue)", "c": "Green/Ext"}}
+
+
+def old_table(where, schema, warn):
+    import io
+    import pandas as pd
+    from hed import Sidecar, TabularInput
+    from hed.errors.error_reporter import ErrorHandler
+    rows = len(where["cells"])
+    df = pd.DataFrame({"onset": [str(1.0 + k) for k in range(rows)], "duration": ["n/a"] * rows, "HED": where["cells"],
+                       "cat": where["cats"]})
+    if not where["onset"]:
+        df = df.drop(columns=["onset", "duration"])
+    return TabularInput(df, sidecar=Sidecar(io.StringIO(json.dumps({"cat": SIDECAR_CAT}))), name="t.tsv").validate(
+        schema, error_handler=ErrorHandler(check_for_warnings=warn))
+
+
 def run(ctx):
     import io
     import pandas as pd
@@ -226,17 +731,12 @@ def run(ctx):
     for t in range(ntab):
         rows = ctx.rng.randint(1, 6)
         cells = gen_strings(ctx, rows)
-        df = pd.DataFrame({"onset": [str(1.0 + k) for k in range(rows)], "duration": ["n/a"] * rows, "HED": cells,
-                           "cat": [ctx.rng.choice(["a", "b", "c", "n/a", "zz"]) for _ in range(rows)]})
-        if t % 2:
-            # no onset column: rows are validated as strings combined from their cells (span remapping)
-            df = df.drop(columns=["onset", "duration"])
-        where = {"entry": "table", "cells": cells}
+        cats = [ctx.rng.choice(["a", "b", "c", "n/a", "zz"]) for _ in range(rows)]
+        # odd t: no onset column — rows are validated as strings combined from their cells (span remapping)
+        where = {"entry": "table", "cells": cells, "cats": cats, "onset": not t % 2}
         try:
-            on = TabularInput(df, sidecar=Sidecar(io.StringIO(json.dumps({"cat": sidecar["cat"]}))), name="t.tsv").validate(
-                schema, error_handler=ErrorHandler(check_for_warnings=True))
-            off = TabularInput(df, sidecar=Sidecar(io.StringIO(json.dumps({"cat": sidecar["cat"]}))), name="t.tsv").validate(
-                schema, error_handler=ErrorHandler(check_for_warnings=False))
+            on = old_table(where, schema, True)
+            off = old_table(where, schema, False)
         except IndexError:
             ctx.count("validate-raised-IndexError(C04 finding)")
             continue
@@ -318,6 +818,13 @@ def run(ctx):
             ctx.violation("export-not-json-serialisable", {"codes": codes}, f"{type(e).__name__}: {e}")
         if [i["code"] for i in cp] != codes:
             ctx.violation("export-changed-codes", {"codes": codes}, None)
+    # growth round: context stack histories, printable grouping, composition with the C01 / C07 / C08 models
+    run_stack(ctx)
+    run_print(ctx, schema)
+    run_closed(ctx)
+    ctx.extra["rule"] += ("; + random push/pop/reset/format histories on the real ErrorHandler (type-exact contexts); + issue lists "
+                          "with random contexts printed by get_printable_issue_string; + strings / tables / sidecars of the closed "
+                          "C01/C07/C08 generators validated with warnings on and off against Flow.located / Flow.Tab / Flow.Sc")
 
 
 def replay(ctx, rec):
@@ -325,6 +832,65 @@ def replay(ctx, rec):
     from hed.errors.error_reporter import ErrorHandler
     from hed.errors.error_types import ErrorContext
     case = rec.get("case") or (rec.get("disagreements") or [{}])[0].get("case")
+    entry = (case or {}).get("entry")
+    if entry == "history":
+        ops = case["ops"]
+        a = ctx.model.batch([{"op": "c12.ctx", "w": case["w"], "ops": ops}])[0]
+        raised, out, stack = run_history_real(ops, case["w"])
+        print("impl :", raised, [(k, s) for k, _, s in out], stack)
+        print("spec :", expect_history(ops, case["w"]))
+        print("model:", a)
+        check_history(ctx, ops, case["w"], a)
+        return
+    if entry == "print":
+        schema = load_schema_version("8.3.0")
+        pc = {"skip": case["skip"], "severity": case["severity"],
+              "issues": [{k: (HedString(v["ref"], schema) if isinstance(v, dict) else v) for k, v in d.items()} for d in case["issues"]]}
+        a = ctx.model.batch([print_request(pc)])[0]
+        from hed.errors.error_reporter import get_printable_issue_string
+        print(get_printable_issue_string(pc["issues"], severity=pc["severity"], skip_filename=pc["skip"], add_link=False))
+        print("model:", a)
+        check_print(ctx, pc, a)
+        return
+    if entry in ("closed-string", "closed-table", "closed-sidecar"):
+        from harness.props import c08, c01
+        su = closed_setup(ctx)
+        if entry == "closed-string":
+            a = ctx.model.batch([dict(su.env([case["text"]]), op="c12.string", cases=[{"text": case["text"], "ph": case["ph"]}])])[0]
+            m = a["answers"][0]
+            print("impl on :", string_obs(su, case["text"], case["ph"], True))
+            print("impl off:", string_obs(su, case["text"], case["ph"], False))
+            print("model   :", m)
+            check_closed_string(ctx, su, case["text"], case["ph"], m)
+        elif entry == "closed-table":
+            rq = su.real.request(case["spec"], su.variant)
+            a = ctx.model.batch([dict(su.env([x for r in rq["rows"] for x in r["cells"]]), op="c12.file", tables=[rq])])[0]
+            m = a["answers"][0]
+            print("impl on :", table_obs(su, case["spec"], True))
+            print("impl off:", table_obs(su, case["spec"], False))
+            print("model   :", m)
+            check_closed_table(ctx, su, case["spec"], rq, m)
+        else:
+            d = case["doc"]
+            chars = sorted({c for c in json.dumps(d, ensure_ascii=False) if ord(c) > 127})
+            env = dict(su.v.payload(chars), **c01.detect_variant(), ns="")
+            m = ctx.model.batch([dict(env, op="c12.sidecar", docs=[{"doc": c08.enc(d), "fixed": True}])])[0]["answers"][0]
+            for w in (True, False):
+                print("impl", w, sidecar_obs(d, su.real.schema, su.real.dd, w)[0])
+            print("model   :", m)
+            check_closed_sidecar(ctx, su, d, m)
+        su.real.cleanup()
+        return
+    if entry == "table" and "cats" in case:
+        schema = load_schema_version("8.3.0")
+        on, off = old_table(case, schema, True), old_table(case, schema, False)
+        print("warnings on :", [key_view(i)[:6] for i in on])
+        print("warnings off:", [key_view(i)[:6] for i in off])
+        if sorted(map(key_view, off), key=repr) != sorted((key_view(i) for i in on if i["severity"] == 1), key=repr):
+            ctx.violation("errors-only-not-the-error-subset", case, {"off": len(off), "on": len(on)})
+        for i in on:
+            check_issue(ctx, i, case, 1)
+        return
     if not case or "text" not in case:
         print("nothing to replay:", json.dumps(rec)[:300])
         return
